@@ -1869,8 +1869,27 @@ def oracle_pipeline(ctx, strategies, n_chroms, clusters_per_chrom, reads_per_iso
             except ERRS as e:
                 ctx.notes.append("PolyAOutside monitor could not read the BAM: %s" % type(e).__name__)
             out = os.path.join(d, "out")
+            # interface hypotheses of C11 / C14 / C15 / C19 theorems watched on the real assigner (hypothesis audit G4, G3, G7,
+            # C19-G1): harness/mon_wrap.py evaluates them on every instrumented call of this run; the real code's own
+            # warning "Odd case for exon elongation" (= not HasCommon) is counted in the log as well
+            import mon_wrap
+            mon = os.path.join(d, "mon.jsonl")
             rc, log = P.run_isoquant(out, P.std_args(paths, prefix="S", threads=2,
-                                                     extra=["--matching_strategy", strategy, "--no_model_construction"]))
+                                                     extra=["--matching_strategy", strategy, "--no_model_construction"]),
+                                     wrapper=os.path.join(vlib.HERE, "mon_wrap.py"),
+                                     env={"MON_FILE": mon, "MON_SET": "elong,binsearch,c14events,penalty"})
+            calls, viol = mon_wrap.read_monitor(mon)
+            for mname, cnt in calls.items():
+                ctx.count("pipeline_hypothesis_monitor:%s:calls" % mname, cnt)
+            seen_kinds = set()
+            for r_ in viol:
+                if r_.get("kind") not in seen_kinds:
+                    seen_kinds.add(r_.get("kind"))
+                    ctx.fail("hyp_" + str(r_.get("kind")), {"mode": "pipeline", "strategy": strategy, "monitor": r_.get("mon")},
+                             "interface hypothesis violated on the real pipeline: %s" % {k: v for k, v in r_.items() if k != "mon"})
+            if "Odd case for exon elongation" in log and "no_common_split_exon" not in seen_kinds:
+                ctx.fail("hyp_no_common_split_exon", {"mode": "pipeline", "strategy": strategy, "monitor": "log"},
+                         "the real assigner logged 'Odd case for exon elongation' %d time(s)" % log.count("Odd case for exon elongation"))
             files = P.out_files(out, "S")
             ra = files.get("S.read_assignments.tsv")
             if rc != 0 or not ra:
